@@ -19,7 +19,7 @@ RULE = ("a case is one arrival history (window W, sequence of (frame, timestamp,
         "through the real deduplicate_messages task; exhaustive part: every history of length <= L over "
         "{2 decodable, 1 undecodable frame} x a 6-point timestamp grid {0, W/2, W, 3W/2, 2W, 4W} for each W; "
         "random part: up to 400 receptions over 6 decodable + 3 undecodable frames x 5 receivers with monotone, "
-        "jittered and adversarial clocks; distinct = distinct (W, frames, timestamps) tuples; non-trivial = at "
+        "jittered and adversarial clocks; the same random family also through the decode1090 command line tool; distinct = distinct (W, frames, timestamps) tuples; non-trivial = at "
         "least one group closed (a record was due) in the history")
 
 ASSUMPTIONS = [
@@ -28,9 +28,11 @@ ASSUMPTIONS = [
     "the clock of the property is the one the implementation documents: milliseconds, floor(timestamp * 1e3)",
     "driver hook H3 logs at the channel boundary: IN before send, OUT after the task is parked on recv() again",
     "records still open when the input closes are not required (their window never closed)",
+    "decode1090 -i/-d (the second copy of the algorithm, with a final flush) is observed from outside: JSON lines in, JSON lines out; "
+    "timestamps there have at most 4 decimals so that every JSON reader parses them to the same double",
 ]
 
-MANDATORY = ["shape:reopened-frame", "shape:equal-stamps", "shape:decreasing-stamps", "shape:W=0",
+MANDATORY = ["cli:history:monotone", "cli:history:non-monotone", "shape:reopened-frame", "shape:equal-stamps", "shape:decreasing-stamps", "shape:W=0",
              "shape:undecodable-group-dropped", "shape:group>=3", "shape:joined-at-expiry", "shape:several-closed-at-once"]
 
 
@@ -310,6 +312,115 @@ def assign_ids(batch, start):
     return out, rid
 
 
+# ---------------------------------------------------------------- second anchor: the decode1090 command line tool
+# decode1090 -i file.jsonl -d W carries its own copy of the same algorithm (plus a final flush). It is observed from
+# outside, without any hook: input file in, JSON lines out. No per-arrival information, so the oracle is the order
+# and the content of the emitted records.
+
+def cli_expected(window, ins, decodable):
+    """-> list of batches; a batch is a list of (frame, ts, ids) whose relative order is not prescribed"""
+    due, still_open, _ = model(window, ins, decodable)
+    nows = [to_ms(ts) for _, ts, _ in ins]
+    monotone = all(nows[i] <= nows[i + 1] for i in range(len(nows) - 1))
+    batches = []
+    steps = list(due)
+    # final flush: every group still open, in expiry order
+    rest = sorted(still_open.items(), key=lambda kv: (kv[1]["first"] + window, bytes.fromhex(kv[0])))
+    steps.append([(f, g["ts"], tuple(g["ids"]), g["first"]) for f, g in rest if f in decodable])
+    for step in steps:
+        if not step:
+            continue
+        if monotone:
+            # records leave in order of first arrival; equal first arrivals in any order
+            cur_key = None
+            for f, t, ids, first in step:
+                if first != cur_key:
+                    batches.append([])
+                    cur_key = first
+                batches[-1].append((f, t, ids))
+        else:
+            batches.append([(f, t, ids) for f, t, ids, _ in step])
+    return batches, monotone
+
+
+def run_cli(rep, cli, window, ins, decodable, tmpdir):
+    import json
+    import os
+    import subprocess
+    path = os.path.join(tmpdir, f"c10cli.{os.getpid()}.jsonl")
+    with open(path, "w") as f:
+        for frame, ts, rid in ins:
+            f.write(json.dumps({"timestamp": ts, "frame": frame, "metadata": [{"system_timestamp": ts, "serial": rid}]}) + "\n")
+    try:
+        p = subprocess.run([cli, "-i", path, "-d", str(window)], stdout=subprocess.PIPE, stderr=subprocess.PIPE, timeout=300)
+    except subprocess.TimeoutExpired:
+        from common import Inconclusive
+        raise Inconclusive("decode1090 exceeded its watchdog")
+    finally:
+        try:
+            os.unlink(path)
+        except OSError:
+            pass
+    rep.evaluations += 1
+    replay = {"mode": "decode1090", "window": window, "ins": [list(x) for x in ins]}
+    if p.returncode != 0:
+        rep.violation("C10:cli:crash", f"decode1090 -d {window} exited with {p.returncode}: {p.stderr.decode(errors='replace')[-300:]}", replay)
+        return
+    got = []
+    for line in p.stdout.decode().splitlines():
+        if not line.strip():
+            continue
+        o = json.loads(line)
+        got.append((o.get("frame"), o.get("timestamp"), tuple(m.get("serial") for m in o.get("metadata", []))))
+    batches, monotone = cli_expected(window, ins, decodable)
+    rep.cls("cli:history:monotone" if monotone else "cli:history:non-monotone")
+    rep.cls("cli:receptions", len(ins))
+    rep.cls("cli:records", len(got))
+    rep.hashes.add(hash(("cli", window, tuple((f, t) for f, t, _ in ins))))
+    # conservation, independent of the model
+    sent = {rid: (frame, ts) for frame, ts, rid in ins}
+    seen = {}
+    bad = []
+    for k, (frame, ts, ids) in enumerate(got):
+        for rid in ids:
+            if rid not in sent:
+                bad.append(("invented", f"record {k} carries unknown reception {rid}"))
+            elif sent[rid][0] != frame:
+                bad.append(("frame-mismatch", f"record {k} of {frame} carries reception {rid} of {sent[rid][0]}"))
+            if rid in seen:
+                bad.append(("duplicated", f"reception {rid} in records {seen[rid]} and {k}"))
+            seen[rid] = k
+        if frame not in decodable:
+            bad.append(("undecodable-emitted", f"record {k} for undecodable frame {frame!r}"))
+    for frame, ts, rid in ins:
+        if frame in decodable and rid not in seen:
+            bad.append(("lost", f"reception {rid} of a decodable frame is in no record although the tool flushes at the end"))
+            break
+    # order and grouping against the model
+    pos = 0
+    for b in batches:
+        chunk = got[pos:pos + len(b)]
+        if sorted(chunk) != sorted(b):
+            bad.append(("model-mismatch", f"records {pos}..{pos + len(b) - 1}: expected (any order) {sorted(b)[:4]}, got {sorted(chunk)[:4]}"))
+            break
+        pos += len(b)
+    else:
+        if pos != len(got):
+            bad.append(("model-mismatch", f"{len(got) - pos} unexpected trailing record(s): {got[pos:pos + 3]}"))
+    done = set()
+    for c, text in bad:
+        if c in done:
+            continue
+        done.add(c)
+        rep.violation(f"C10:cli:{c}", f"decode1090 -d {window} on {len(ins)} receptions {[(f[:10], t, i) for f, t, i in ins][:10]}...: {text}", replay)
+
+
+def cli_history(rng, dec, undec):
+    window, ins = random_history(rng, dec, undec)
+    # short decimal timestamps: parsed exactly by any JSON reader (mantissa < 2^53, small negative exponent)
+    return window, [(f, round(ts, 4)) for f, ts in ins]
+
+
 def worker(args):
     shard, nshards, tier, seed, binary = args
     rep = Rep("C10")
@@ -341,6 +452,17 @@ def worker(args):
         b, rid = assign_ids(batch[i:i + 500], rid)
         run_batch(rep, binary, b, decodable)
     rep.extra["random_histories"] = nrand
+    # the command line tool
+    import os
+    cli = os.path.join(os.path.dirname(binary), "decode1090")
+    tmpdir = os.path.join(os.path.dirname(os.path.dirname(os.path.dirname(binary))), "tmp")
+    os.makedirs(tmpdir, exist_ok=True)
+    ncli = 40 if tier == "quick" else 1500
+    for _ in range(ncli):
+        window, h = cli_history(rng, dec, undec)
+        b, rid = assign_ids([(window, h)], rid)
+        run_cli(rep, cli, b[0][0], b[0][1], decodable, tmpdir)
+    rep.extra["decode1090_histories"] = ncli
     rep.exhaustive = False
     return rep.to_dict()
 
@@ -350,5 +472,9 @@ def replay(binary, data):
     dec, undec = frame_pool()
     r = data["replay"]
     ins = [tuple(x) for x in r["ins"]]
+    if r.get("mode") == "decode1090":
+        import os
+        run_cli(rep, os.path.join(os.path.dirname(binary), "decode1090"), r["window"], ins, set(dec), "/tmp")
+        return rep.to_dict()
     run_batch(rep, binary, [(r["window"], ins)], set(dec))
     return rep.to_dict()
